@@ -733,7 +733,9 @@ class Angle:
     def __abs__(self):
         if self.is_number() and not self.imag:
             return abs(self.m.get((), Fraction(0)))
-        return UndecidedValue(f"abs({self!r})")
+        u = UndecidedValue(f"abs({self!r})")
+        u.abs_of = self
+        return u
 
     def __float__(self):
         if self.is_number() and not self.imag:
@@ -752,6 +754,8 @@ class Angle:
 class UndecidedValue:
     """Result of an operation whose value depends on the symbolic parameter in a non-polynomial way (e.g. e % 2).
     Any comparison with it is undecided: the harness must split the case instead."""
+
+    abs_of = None
 
     def __init__(self, what):
         self.what = what
@@ -776,6 +780,8 @@ class UndecidedValue:
     __add__ = __radd__ = __sub__ = __rsub__ = __mul__ = __rmul__ = __neg__ = __abs__ = _arith
 
     def _ord(self, o):
+        if CTX is not None and getattr(self, "abs_of", None) is not None and hasattr(CTX, "decide_abs_order"):
+            return CTX.decide_abs_order(self.abs_of, o)
         if CTX is not None and hasattr(CTX, "decide_undecided_order"):
             return CTX.decide_undecided_order(f"{self.what} <=> {o!r}")
         raise Undecided(self.what)
